@@ -37,11 +37,20 @@ if os.path.exists(ap):
     for r in rows_a:
         if r[1] in ('survived','harness','error'):
             auto+="| %s | %s | %s |\n"%(r[0].replace('|','/'),r[1],tri.get(r[0],'NOT TRIAGED'))
+# cost / reach table from the committed (quick-tier) evidence
+cost="| check | worlds | runs | steps | distinct judged (state, operation) pairs | fault kinds fired | probes hit | wall (16 threads) | runs/hour |\n|---|---|---|---|---|---|---|---|---|\n"
+for f in sorted(glob.glob('/verif/evidence/C*.json')):
+    e=json.load(open(f)); c=e['coverage']
+    worlds=c.get('worlds'); wn='+'.join(w.get('world','?') for w in worlds) if isinstance(worlds,list) else str(worlds)
+    ff=sum(1 for k,v in c.get('faults_fired',{}).items() if v)
+    pr=sum(1 for k,v in c.get('probes',{}).items() if v); pt=len(c.get('probes',{}))
+    cost+="| %s (%s) | %s | %s | %s | %s | %d | %d / %d | %.0f s | %s |\n"%(e['property_id'],e.get('tier','?'),wn,c.get('evaluations','?'),c.get('steps','?'),c.get('distinct_nontrivial','?'),ff,pr,pt,e.get('wall_s',0),c.get('runs_per_hour','?'))
 s=open('/verif/DESIGN.md').read()
 def put(tag,body,s):
     a='<!-- GENERATED:%s -->'%tag; b='<!-- /GENERATED:%s -->'%tag
     return re.sub(re.escape(a)+'.*?'+re.escape(b), lambda m: a+'\n'+body+'\n'+b, s, flags=re.S)
 s=put('SEEDED',seeded,s); s=put('MUTANTS',mut,s)
 if auto: s=put('AUTOMUTANTS',auto,s)
+s=put('COST',cost,s)
 open('/verif/DESIGN.md','w').write(s)
 print(n,'seeded rows,',len(mrows),'mutant rows')
